@@ -8,3 +8,7 @@ import DclabModel.Properties.C15
 import DclabModel.Properties.C03
 import DclabModel.Properties.C16
 import DclabModel.Properties.C04
+import DclabModel.Properties.C18
+import DclabModel.Properties.C01
+import DclabModel.Properties.C20
+import DclabModel.Properties.C11
